@@ -17,6 +17,7 @@ UNSAFE = ['/', '\\', '.']
 
 def _facts_d(st, n, s):
     st.assume(unfmt_d(s) == n)
+    st.assume(z3.Implies(n >= 0, z3.StrToInt(s) == n))
     st.assume(z3.Length(s) >= 1)
     for ch in UNSAFE:
         st.assume(z3.Not(z3.Contains(s, z3.StringVal(ch))))
@@ -65,6 +66,9 @@ def to_str(ex, st, v):
     if isinstance(v, VOpt):
         from .values import ite
         return VStr(z3.If(v.isnone, z3.StringVal('None'), to_str(ex, st, v.val).t))
+    from .values import VFunc
+    if isinstance(v, VFunc):
+        return VStr(z3.String(uid('str_of')))
     raise Unsupported('str(%r)' % (v,))
 
 
@@ -155,14 +159,27 @@ def int_of_str(ex, st, v, rest, node=None):
             return [(st, VInt(int(c)))]
         except ValueError:
             return [(st, Raised('ValueError', note='int(%r)' % c))]
-    # int(s): either s is the decimal image of an integer, or ValueError
-    n = z3.Int(uid('intof'))
-    ok = st.fork()
-    ok.assume(v.t == fmt_d(n))
-    ok.assume(unfmt_d(v.t) == n)
-    bad = st.fork()
-    ex.used_stubs.add('int(str): result n with str == fmt_d(n), or ValueError (whitespace/sign forms ignored)')
-    return [(ok, VInt(n)), (bad, Raised('ValueError', note='int() of non-numeric string'))]
+    # int(s): s is a (possibly negated) string of decimal digits, or ValueError.  z3's str.to_int gives the value
+    # of a digit string and -1 otherwise.  (Python also accepts surrounding whitespace, '+', '_' separators and
+    # non-ASCII digits: those inputs are treated as ValueError here -- recorded in the trusted base.)
+    digits = z3.StrToInt(v.t)
+    neg_body = z3.SubString(v.t, 1, z3.Length(v.t) - 1)
+    negdigits = z3.StrToInt(neg_body)
+    is_pos = digits >= 0
+    is_neg = z3.And(z3.PrefixOf(z3.StringVal('-'), v.t), negdigits >= 0)
+    ex.used_stubs.add("int(str): decimal digit strings (optionally '-' prefixed) via str.to_int, everything else ValueError")
+    outs = []
+    for s2, b in ex.branch(st, is_pos):
+        if b:
+            s2.assume(z3.Implies(digits >= 0, unfmt_d(v.t) == digits))
+            outs.append((s2, VInt(digits)))
+        else:
+            for s3, b2 in ex.branch(s2, is_neg):
+                if b2:
+                    outs.append((s3, VInt(-negdigits)))
+                else:
+                    outs.append((s3, Raised('ValueError', note='int() of non-numeric string')))
+    return outs
 
 
 def float_of_str(ex, st, v, node=None):
